@@ -199,6 +199,18 @@ def members_for(lang, problems):
     return rows
 
 
+def result_pre_call_sites():
+    """every place where Wrapp.wrap_function emits the result's pre_call code (the allocation of a
+    by-value result): True when the emission is immediately followed by `result_pre_call = []`"""
+    src = open(os.path.join(common.REPO, "shroud", "wrapp.py")).read().split("\n")
+    sites = []
+    for i, ln in enumerate(src):
+        if re.search(r"\.extend\(result_pre_call\)", ln):
+            nxt = src[i + 1].strip() if i + 1 < len(src) else ""
+            sites.append(nxt == "result_pre_call = []")
+    return sites
+
+
 def lean_evs(evs):
     return "[" + ", ".join("(%d, %d)" % e for e in evs) + "]"
 
@@ -225,7 +237,11 @@ def render(rows, members):
             "[" + ", ".join(str(ord(c)) for c in r["name"]) + "]", 0 if r["lang"] == "c" else 1,
             lean_evs(r["pre"]), lean_evs(r["fail"]), lean_evs(r["ok"]), lean_evs(r["getter"]), lean_evs(r["dealloc"])))
     L.append(",\n".join(body))
-    L += ["]", "", "end Shroud.Gen.PyRes", ""]
+    L += ["]", "",
+          "/-- emission sites of the result's pre_call code in Wrapp.wrap_function (before the default-argument switch, in the",
+          "    per-call loop): true = the pending list is reset right after the emission -/",
+          "def resultPreCallSites : List Bool := [%s]" % ", ".join("true" if x else "false" for x in result_pre_call_sites()), "",
+          "end Shroud.Gen.PyRes", ""]
     return "\n".join(L)
 
 
